@@ -56,8 +56,7 @@ type profile struct {
 	Out    int      `json:"out"`   // index (0-based) of the document the filter "g<2" excludes
 	Light  bool     `json:"light"` // thin the fusion battery (deep walks)
 	MaxDiv int      `json:"max_div"`
-	Strict bool     `json:"strict_formula"` // also require the documented formula's top-k at small k (the pinned late fusion deviates)
-	Traces int      `json:"traces"`         // judged searches kept for validation by TLC (per process)
+	Traces int      `json:"traces"` // judged searches kept for validation by TLC (per process)
 }
 
 type input struct {
@@ -84,40 +83,38 @@ type judged struct {
 	C    []int  `json:"C"`   // candidates (and allowed)
 	Vrk  []int  `json:"vrk"` // vector rank of every document: the specification's squared distance
 	Trk  []int  `json:"trk"` // text rank of every document: dense rank of the BM25 score evaluated by the harness (ties share a rank)
-	Frk  []int  `json:"frk"` // fused rank (mode hybrid): dense rank of the late-fusion score of the pool documents
+	Frk  []int  `json:"frk"` // fused rank (mode hybrid): dense rank of alpha/(1+d) + (1-alpha)*bm25/max over the documents of L
 	OK   bool   `json:"ok"`  // verdict of the harness (TLC must agree)
 }
 
 type output struct {
-	Behaviours        int            `json:"behaviours"`
-	Steps             int            `json:"steps"`
-	Checked           int            `json:"checked_steps"`
-	TextQueries       int            `json:"text_queries"`    // FindIDsByTextSearch calls judged
-	TextNonTriv       int            `json:"text_nontrivial"` // ... with a non-empty candidate set
-	Scores            int            `json:"scores"`          // BM25 scores compared
-	Multi             int            `json:"scores_multi"`    // ... of queries with >= 2 terms matching >= 2 documents
-	Fusion            int            `json:"fusion_searches"` // VSearch / VSearchGraph calls judged
-	Alpha0            int            `json:"alpha0"`
-	Alpha1            int            `json:"alpha1"`
-	AlphaHalf         int            `json:"alpha_half"`             // 0 < alpha < 1 (1/2 and one of 0.25, 0.4, 0.75)
-	InteriorSmallK    int            `json:"alpha_interior_small_k"` // ... with k < live documents, judged by the late-fusion rule
-	FusedScores       int            `json:"fused_scores"`           // fused scores compared at alpha = 1/2 (and 0, 1)
-	TextOnly          int            `json:"text_only"`
-	Contains          int            `json:"contains_form"`
-	Filtered          int            `json:"filtered"`
-	SmallK            int            `json:"small_k"`
-	HalfSmallK        int            `json:"alpha_half_small_k_measured"`                     // alpha = 1/2 with k < live documents: not judged ...
-	NoVectorTerm      int            `json:"alpha_half_small_k_returned_without_vector_term"` // ... a returned candidate outside the k nearest (score lacks alpha/(1+d))
-	HalfSmallKDiffers int            `json:"alpha_half_small_k_differs_from_formula"`         // ... result is not the formula's top-k
-	Ties              int            `json:"ties"`                                            // judged lists in which two documents tie
-	Paths             map[string]int `json:"paths"`
-	Ops               map[string]int `json:"ops"`
-	StaleProbe        int            `json:"after_overwrite_or_delete"` // checked steps whose history holds an overwrite or a delete
-	DivTotal          int            `json:"div_total"`
-	Divergences       []divergence   `json:"divergences"`
-	Traces            []judged       `json:"traces"`
-	Errors            []string       `json:"errors"`
-	Binding           string         `json:"-"`
+	Behaviours     int            `json:"behaviours"`
+	Steps          int            `json:"steps"`
+	Checked        int            `json:"checked_steps"`
+	TextQueries    int            `json:"text_queries"`    // FindIDsByTextSearch calls judged
+	TextNonTriv    int            `json:"text_nontrivial"` // ... with a non-empty candidate set
+	Scores         int            `json:"scores"`          // BM25 scores compared
+	Multi          int            `json:"scores_multi"`    // ... of queries with >= 2 terms matching >= 2 documents
+	Fusion         int            `json:"fusion_searches"` // VSearch / VSearchGraph calls judged
+	Alpha0         int            `json:"alpha0"`
+	Alpha1         int            `json:"alpha1"`
+	AlphaHalf      int            `json:"alpha_half"`                                         // 0 < alpha < 1 (1/2 and one of 0.25, 0.4, 0.75)
+	InteriorSmallK int            `json:"alpha_interior_small_k"`                             // ... with k < live allowed documents
+	OutsideNearest int            `json:"alpha_interior_small_k_candidate_outside_k_nearest"` // ... and a candidate outside the k nearest (the formula and a truncated late fusion differ)
+	FusedScores    int            `json:"fused_scores"`                                       // fused scores compared at alpha = 1/2 (and 0, 1)
+	TextOnly       int            `json:"text_only"`
+	Contains       int            `json:"contains_form"`
+	Filtered       int            `json:"filtered"`
+	SmallK         int            `json:"small_k"`
+	Ties           int            `json:"ties"` // judged lists in which two documents tie
+	Paths          map[string]int `json:"paths"`
+	Ops            map[string]int `json:"ops"`
+	StaleProbe     int            `json:"after_overwrite_or_delete"` // checked steps whose history holds an overwrite or a delete
+	DivTotal       int            `json:"div_total"`
+	Divergences    []divergence   `json:"divergences"`
+	Traces         []judged       `json:"traces"`
+	Errors         []string       `json:"errors"`
+	Binding        string         `json:"-"`
 }
 
 // ------------------------------------------------------------------ refinement of terms into words
